@@ -32,7 +32,7 @@ class D(Driver):
         ("picosvg.svg_pathops", "path_area"),
     )
     deciding_monitors = ("might_paint", "remove_empty_subpaths")
-    feature_floors = {"might_paint.truth_paints.answer_True": 1500, "might_paint.truth_nothing.answer_False": 1500, "remove_empty_subpaths.ok": 500}
+    feature_floors = {"small_area": 90, "engine_refuses": 40, "signed_area_cancels": 120, "coincident_twice": 120, "collinear": 150, "sliver": 80, "retrace_then_loop_transformed": 70, "outline_transformed": 70, "mixed_subpaths": 150, "move_only": 80, "zero_extent": 60, "basic_degenerate": 80, "documents": 80, "might_paint.truth_paints.answer_True": 1500, "might_paint.truth_nothing.answer_False": 1500, "remove_empty_subpaths.ok": 500}
     nt_floor = {"quick": 1500, "thorough": 20000}
     time_budget = {"quick": 120, "thorough": 900}
 
@@ -78,6 +78,25 @@ class D(Driver):
             return tag, dict(points=" ".join(f"{x},{y}" for x, y in pts)), lab
         # paths
         k2 = rng.random()
+        if rng.random() < 0.07:
+            # small but real areas (well below one square unit), as rectangle, triangle or circle-like path
+            x0, y0 = r2(0, 50), r2(0, 50)
+            sz = rng.choice((0.05, 0.2, 0.3, 0.5, 0.8))
+            kind = rng.random()
+            if kind < 0.4:
+                return "rect", dict(x=x0, y=y0, width=sz, height=sz * rng.choice((1.0, 0.5, 1.5))), "small_area"
+            if kind < 0.6:
+                return "circle", dict(cx=x0, cy=y0, r=sz / 2), "small_area"
+            return "path", gp.render([("M", (x0, y0)), ("L", (x0 + sz, y0)), ("L", (x0 + sz / 2, y0 + sz)), ("Z", ())]), "small_area"
+        if rng.random() < 0.04:
+            # a contour on which the engine's simplify gives up (it raises): the answer must stay conservative
+            from picomon.ref import pathgrammar as _G
+
+            base = _G.parse("M38.8,3.081 C54.3,82.591 91.186,61 51,20.03 C37.4,76 16,70 26,52.778 C85.665,26.1 76,70 10.4,9 Z")
+            if rng.random() < 0.5:
+                j = 10.0 ** rng.uniform(-6, -2)
+                base = [(c, tuple(v + rng.uniform(-j, j) for v in a)) for c, a in base]
+            return "path", gp.render(base), "engine_refuses"
         if k2 < 0.08:
             return "path", gp.render([("M", (r2(0, 50), r2(0, 50)))] + [(rng.choice("Mm"), (r2(0, 9), r2(0, 9))) for _ in range(rng.randint(0, 3))]), "move_only"
         if k2 < 0.14:
